@@ -9,6 +9,7 @@ import (
 	"go/types"
 	"io"
 	"log"
+	"os"
 	"runtime"
 	"strings"
 
@@ -61,6 +62,7 @@ func (interp) LoadExpr(n ast.Node) string {
 
 // Options select the configuration.
 type Options struct {
+	RealBuiltin bool // force the unshared InitBuiltin path (used by the equivalence self-check)
 	NoRecorder bool
 	NoInterp   bool
 	DefaultGo  string
@@ -83,6 +85,9 @@ func New(imp types.Importer, o Options) *Build {
 	}
 	if o.Conf != nil {
 		o.Conf(conf)
+	}
+	if gogen.VerifFastBuiltin && !o.RealBuiltin && conf.NewBuiltin == nil && !ForceRealBuiltin {
+		conf.NewBuiltin = sharedBuiltin
 	}
 	b.Pkg = gogen.NewPackage(PkgPath, PkgName, conf)
 	return b
@@ -118,3 +123,27 @@ func Try(f func()) (out Outcome) {
 
 // Accepted reports whether the build is error free so far.
 func (b *Build) Accepted(o Outcome) bool { return !o.Panicked && len(b.Errs) == 0 }
+
+// ForceRealBuiltin disables the shared-builtin accelerator process-wide (VERIF_REAL_BUILTIN=1).
+var ForceRealBuiltin = os.Getenv("VERIF_REAL_BUILTIN") == "1"
+
+type builtinKey struct{ bi, br, bf *types.Named }
+
+var sharedBuiltins = map[builtinKey]*types.Package{}
+
+// sharedBuiltin is a Config.NewBuiltin that creates the package-independent operator and
+// function templates of the builtin package once per process and configuration. The templates
+// are immutable after creation (go/types caches inside them are pure); the per-package tables
+// are initialised for every package exactly as InitBuiltin does. Every check that relies on it
+// re-runs a slice of its inputs with RealBuiltin and requires identical observations.
+func sharedBuiltin(pkg *gogen.Package, conf *gogen.Config) *types.Package {
+	key := builtinKey{conf.UntypedBigInt, conf.UntypedBigRat, conf.UntypedBigFloat}
+	if b, ok := sharedBuiltins[key]; ok {
+		gogen.VerifInitBuiltin(pkg, b, conf, false)
+		return b
+	}
+	b := types.NewPackage("", "")
+	gogen.VerifInitBuiltin(pkg, b, conf, true)
+	sharedBuiltins[key] = b
+	return b
+}
